@@ -458,3 +458,79 @@ def run_teardown(run, P):
     run.stats['teardown_solver_steps'] += ctx.steps
     run.require(n[0] > 0, 'R-TEARDOWN: %s() does not call %s()' % (TEARDOWN, GATED_FREE))
     run.require(n[1] >= 2, 'R-TEARDOWN: fewer than 2 holder drains found in %s()' % TEARDOWN)
+
+
+# ---------------------------------------------------------------------------------------------------------------
+MAKE = 'coap_make_session'
+ADD_MACROS = ('SESSIONS_ADD',)
+FREEING = ('coap_session_free', 'coap_session_release_lkd', 'coap_session_release')
+
+
+def _makes(ev):
+    t = ev['e']
+    out = []
+    if t.get('k') == 'asg' and t.get('op') == '=' and isinstance(strip(t['r']), dict) and strip(t['r']).get('fn') == MAKE and ap(t['l']):
+        out.append(ap(t['l']))
+    for d in t.get('d') or ():
+        if isinstance(strip(d.get('init')), dict) and strip(d['init']).get('fn') == MAKE:
+            out.append(d['n'])
+    return out
+
+
+def run_hashed(run, P):
+    """R-SESS-HASHED: coap_session_free() unlinks the session from the table it belongs to (SESSIONS_DELETE on the endpoint's or the
+    context's hash).  uthash's delete of an element that was never added treats its zeroed handle as the last element, frees the
+    whole table and sets the head to NULL -- every other session of that endpoint is orphaned (never found again, never reclaimed,
+    no SERVER_SESSION_DEL, leaked at context free).  So a session made in a function (coap_make_session) reaches
+    coap_session_free() / coap_session_release*() only on paths that passed a SESSIONS_ADD of it -- error paths included."""
+    run.rule('R-SESS-HASHED')
+    n = 0
+    for f in sorted(P.lib_funcs(), key=lambda f: f['name']):
+        made = set()
+        for b, ev in P.events(f):
+            t = ev['e']
+            made.update(_makes(ev))
+        if not made:
+            continue
+        name = f['name']
+        frees = [ev for b, ev in P.events(f) if ev['e'].get('k') == 'call' and ev['e'].get('fn') in FREEING and ev['e'].get('a') and ap(ev['e']['a'][0]) in made]
+        if not frees:
+            continue
+        n += len(frees)
+
+        def in_add(ev):
+            return any(m in ADD_MACROS for m in (ev.get('mac') or ()))
+
+        def is_rule_event(ev):
+            t = ev['e']
+            if any(ev is x for x in frees) or in_add(ev):
+                return True
+            return bool(_makes(ev))
+        keys, R = relevance(f, is_rule_event, made)
+        R = set(R) | made
+
+        def on_event(ev, env, ctx):
+            t = ev['e']
+            if _makes(ev):
+                e = apply_generic(ev, env, R).copy()
+                e.ts['added'] = 0
+                return [e]
+            if in_add(ev) and not env.ts.get('added'):
+                e = apply_generic(ev, env, R).copy()
+                e.ts['added'] = 1
+                return [e]
+            for x in frees:
+                if ev is x:
+                    v = ap(t['a'][0])
+                    if env.nullf(v) == 'Z':
+                        return None
+                    ok = env.ts.get('added') == 1
+                    run.instance('R-SESS-HASHED', '%s: %s(%s)' % (name, t['fn'], short(t['a'][0])))
+                    run.oblige('R-SESS-HASHED', ok, '%s:hashed-before-free' % name)
+                    if not ok:
+                        run.violation('R-SESS-HASHED', name, ev['loc'], 'free-of-unhashed-session',
+                                      '%s() is reached for the session made in this function on a path that never added it to a session table: the SESSIONS_DELETE inside '
+                                      'coap_session_free() then empties the whole table of the endpoint / context and orphans every other session' % t['fn'], ctx.path())
+            return None
+        solve(f, Env({'added': 0}), on_event, None, keys, R, key_fn=lambda e: (e.ts.get('added'), tuple(e.nullf(v) for v in sorted(made))))
+    run.require(n >= (2 if getattr(run, 'cfg', 'base') == 'base' else 0) or run.fixture_mode, 'R-SESS-HASHED: fewer than 2 releases of sessions made in the same function found')
